@@ -317,6 +317,7 @@ fn extract_source_map<R: Read>(
         let url = trim_comment.get(SOURCE_MAP_URL.len()..).unwrap();
         source = decode_data_url(&without_data_url_parameters(url))
             .map_err(Error::new)
+            .or_else(|error| decode_plain_data_url(url).ok_or(error))
             .or_else(|_| {
                 let source_path = PathBuf::from(url);
                 let final_path = if source_path.is_absolute() {
@@ -373,6 +374,40 @@ fn without_data_url_parameters(url: &str) -> Cow<'_, str> {
         }
     }
     Cow::Borrowed(url)
+}
+
+/// `data:application/json;charset=utf-8,%7B%22version%22%3A3...`: an inline map that is not base64
+/// encoded is the percent-encoded text after the comma
+fn decode_plain_data_url(url: &str) -> Option<DecodedMap> {
+    let rest = url.strip_prefix("data:application/json")?;
+    let comma = rest.find(',')?;
+    let parameters = &rest[..comma];
+    if !(parameters.is_empty() || parameters.starts_with(';'))
+        || parameters.split(';').any(|parameter| parameter == "base64")
+    {
+        return None;
+    }
+    decode(percent_decode(rest[comma + 1..].as_bytes()).as_slice()).ok()
+}
+
+fn percent_decode(input: &[u8]) -> Vec<u8> {
+    let hex_digit = |byte: u8| (byte as char).to_digit(16).map(|digit| digit as u8);
+    let mut output = Vec::with_capacity(input.len());
+    let mut index = 0;
+    while index < input.len() {
+        if input[index] == b'%' && index + 2 < input.len() {
+            if let (Some(high), Some(low)) =
+                (hex_digit(input[index + 1]), hex_digit(input[index + 2]))
+            {
+                output.push(high * 16 + low);
+                index += 3;
+                continue;
+            }
+        }
+        output.push(input[index]);
+        index += 1;
+    }
+    output
 }
 
 pub fn generate_prefix_stmts(csi_methods: &CsiMethods) -> Vec<Stmt> {
